@@ -188,6 +188,7 @@ func allTypedSets(r *ev.Run) int {
 	n += typedSets(r, spell.Complex)
 	n += typedSets(r, spell.Pointers)
 	n += typedSets(r, spell.Int8)
+	n += typedSets(r, spell.Liars)
 	n += typedSets(r, spell.Stringers)
 	n += typedSets(r, spell.Errors)
 	n += typedSets(r, spell.Chans)
